@@ -737,17 +737,20 @@ package tds
 //@ func (EnvChangePackageField).WriteTo like FieldFmt.WriteTo
 //@ # Channel entry points of the sender (C01)
 //@ func (*Channel).QueuePackage returns (err)
+//@   ensures [closed-reported] old(tdsChan.closed) ==> err != nil && errIs(err, ErrChannelClosed) && tdsChan.queueTx.$w == old(tdsChan.queueTx.$w) && tdsChan.tdsConn.conn.$wlen == old(tdsChan.tdsConn.conn.$wlen)
 //@   requires [ctx] nonnil(ctx)
 //@   requires [pkg] nonnil(pkg)
 //@   ensures [queued-append-only] forall k int :: 0 <= k && k < old(tdsChan.queueTx.$w) ==> tdsChan.queueTx.$out[k] == old(tdsChan.queueTx.$out[k])
 //@   ensures [wire-grows] old(tdsChan.tdsConn.conn.$wlen) <= tdsChan.tdsConn.conn.$wlen
 //@   ensures [wire-prefix-kept] forall k int :: 0 <= k && k < old(tdsChan.tdsConn.conn.$wlen) ==> tdsChan.tdsConn.conn.$wire[k] == old(tdsChan.tdsConn.conn.$wire[k])
 //@ func (*Channel).SendRemainingPackets returns (err)
+//@   ensures [closed-reported] old(tdsChan.closed) ==> err != nil && errIs(err, ErrChannelClosed) && tdsChan.tdsConn.conn.$wlen == old(tdsChan.tdsConn.conn.$wlen)
 //@   requires [ctx] nonnil(ctx)
 //@   ensures [eom-last] err == nil ==> !tdsChan.$open
 //@   ensures [wire-grows] old(tdsChan.tdsConn.conn.$wlen) <= tdsChan.tdsConn.conn.$wlen
 //@   ensures [wire-prefix-kept] forall k int :: 0 <= k && k < old(tdsChan.tdsConn.conn.$wlen) ==> tdsChan.tdsConn.conn.$wire[k] == old(tdsChan.tdsConn.conn.$wire[k])
 //@ func (*Channel).SendPackage returns (err)
+//@   ensures [closed-reported] old(tdsChan.closed) ==> err != nil && errIs(err, ErrChannelClosed) && tdsChan.tdsConn.conn.$wlen == old(tdsChan.tdsConn.conn.$wlen)
 //@   requires [ctx] nonnil(ctx)
 //@   requires [pkg] nonnil(pkg)
 //@   ensures [eom-last] err == nil ==> !tdsChan.$open
@@ -772,6 +775,7 @@ package tds
 //@ typeinv Channel { [lastpkg] tag(this.lastPkgRx) == 0 || payload(this.lastPkgRx) != 0 }
 //@ typeinv Channel { [hooks-nonnil] (forall i int :: 0 <= i && i < len(this.envChangeHooks) ==> this.envChangeHooks[i] != nil) && (forall i int :: 0 <= i && i < len(this.eedHooks) ==> this.eedHooks[i] != nil) }
 //@ func (*Channel).WritePacket
+//@   onsend [nothing-delivered-when-closed] !tdsChan.closed
 //@   requires [packet] packet != nil && allocated(packet) && allocated(packet.Data)
 //@   requires [complete] packet.Header.Length == 8 + len(packet.Data)
 //@   requires [not-queued] forall j int :: 0 <= j && j < len(tdsChan.queueRx.queue) ==> tdsChan.queueRx.queue[j] != packet
@@ -825,6 +829,7 @@ package tds
 //@ ghost field Channel.$rxst [int]int
 //@ pred pkgstatus(p Package) { is(p, *LoginAckPackage) ? as(p, *LoginAckPackage).Status : (is(p, *DonePackage) ? as(p, *DonePackage).Status : (is(p, *MsgPackage) ? as(p, *MsgPackage).MsgId : 0)) }
 //@ func (*Channel).NextPackage returns (pkg, err)
+//@   ensures [closed-reported] old(tdsChan.closed) ==> tag(pkg) == 0 && err != nil && errIs(err, ErrChannelClosed)
 //@   modifies tdsChan.$lastFinal, tdsChan.$rxfail, tdsChan.$rxn, tdsChan.$rxtag, tdsChan.$rxst
 //@   ghost-update at exit: tdsChan.$rxtag := err == nil ? store(tdsChan.$rxtag, tdsChan.$rxn, tag(pkg)) : tdsChan.$rxtag
 //@   ghost-update at exit: tdsChan.$rxst := err == nil ? store(tdsChan.$rxst, tdsChan.$rxn, pkgstatus(pkg)) : tdsChan.$rxst
@@ -951,3 +956,9 @@ package tds
 //@   ensures [new-channel] err == nil ==> ch != nil && fresh(ch) && ch.tdsConn == tds
 //@   ensures [new-id] err == nil ==> !old(maphas(tds.tdsChannels, now(ch.channelId)))
 //@   ensures [setup-acknowledged] err == nil && ch.channelId > 0 ==> ch.$rxn >= 1 && ch.$rxtag[0] == typetag(*HeaderOnlyPackage)
+
+//@ # ---------------------------------------------------------------------
+//@ # Closed channels (C13), sequential part: every entry point reports the closed condition
+//@ # and has no effect on the wire or the queues (clauses [closed-reported] above)
+//@ func (*Channel).Close returns (err)
+//@   ensures [closed] tdsChan.closed
